@@ -532,8 +532,18 @@ def rule_scroll_mirror(ctx: Ctx) -> RuleResult:
     for arm_name, body in (("reverse", ifs[0].body), ("forward", ifs[0].orelse)):
         pops = [c for st in body for c in ast.walk(st) if isinstance(c, ast.Call) and isinstance(c.func, ast.Attribute) and c.func.attr == "pop" and ast.unparse(c.func.value).endswith(".term")]
         ins = [c for st in body for c in ast.walk(st) if isinstance(c, ast.Call) and isinstance(c.func, ast.Attribute) and c.func.attr == "insert" and ast.unparse(c.func.value).endswith(".term")]
-        pa = [ast.unparse(c.args[0]) if c.args else None for c in pops]
-        ia = [ast.unparse(c.args[0]) if c.args else None for c in ins]
+        def arg_text(c):
+            if not c.args:
+                return None
+            a = c.args[0]
+            if isinstance(a, ast.Name):  # a bound held in a local: `end = self.scrollregion_end`
+                ds = [n.value for n in fi.own_nodes() if isinstance(n, ast.Assign) and any(isinstance(t, ast.Name) and t.id == a.id for t in n.targets)]
+                if len(ds) == 1:
+                    a = ds[0]
+            return ast.unparse(a)
+
+        pa = [arg_text(c) for c in pops]
+        ia = [arg_text(c) for c in ins]
         bounds = {"self.scrollregion_start", "self.scrollregion_end"}
         ok = len(pa) == 1 and len(ia) == 1 and {pa[0], ia[0]} == bounds
         rr.inst(f"scroll {arm_name}", True, {"arm": arm_name, "pop_at": pa, "insert_at": ia, "margins_paired": ok})
@@ -1080,6 +1090,8 @@ from ..mutants import Mut  # noqa: E402
 
 _V = "urwid/vterm.py"
 MUTANTS = [
+    Mut("twin-scroll-bounds-in-locals", "urwid/vterm.py", "TermCanvas.scroll", "        if reverse:\n            self.term.pop(self.scrollregion_end)\n            self.term.insert(self.scrollregion_start, self.empty_line())", "        first = self.scrollregion_start\n        last = self.scrollregion_end\n        if reverse:\n            self.term.pop(last)\n            self.term.insert(first, self.empty_line())", twin=True),
+    Mut("twin-esc-resets-parser-by-hand", "urwid/vterm.py", "TermCanvas.process_char", "            self.leave_escape()\n            self.within_escape = True\n", "            self.parsestate = 0\n            self.escbuf = b\"\"\n            self.within_escape = True\n", twin=True),
     Mut("twin-resize-cursor-row-spelled-out", "urwid/vterm.py", "TermCanvas.resize", "                y += 1  # the cursor stays on its line\n", "                y = y + 1\n", twin=True),
     Mut("twin-decrc-deepcopy", "urwid/vterm.py", "TermCanvas.restore_cursor", "(copy.copy(self.saved_attrs[0]), copy.copy(self.saved_attrs[1]))", "(copy.copy(self.saved_attrs[0]), copy.deepcopy(self.saved_attrs[1]))", twin=True),
     Mut("resize-grow-leaves-cursor-row", "urwid/vterm.py", "TermCanvas.resize", "                y += 1  # the cursor stays on its line\n", "", "PAIR|vterm.TermCanvas.resize|resize: insert(0) without moving the cursor row"),
